@@ -46,6 +46,12 @@ var commonAssumptions = []string{
 
 func init() {
 	register(&Def{
+		ID: "C16", Level: "exploration", MinSigs: 40,
+		Rule:        "systematic: denomination grammar (native, one-hop, multi-hop incl. a genuine two-hop voucher whose ibc/ denom really sits in the escrow, other port/channel prefixes, ibc/ hashes, empty segments, leading/trailing/double slashes, factory-style natives, invalid characters, wrong case) x every source end (2 channel pairs) x 14 amount encodings, each through the bare middleware (mode C) and the real core handler (mode H), plus PRNG compositions of path segments; oracle: accepted => the packet denom is <source port>/<source channel>/<native base>, and the coin ICS-20 released from escrow (ledger) = the coin credited to the internal recipient = the coin recorded in the statistics (denom and amount); canonical returning natives must be accepted. distinct = (source end, denom class, amount class, outcomes in both modes)",
+		Assumptions: commonAssumptions,
+		Run:         withLab(world.Config{}, CheckC16),
+	})
+	register(&Def{
 		ID: "C20", Level: "exploration", MinSigs: 40,
 		Rule:        "direct: protocols {-1,0,1,2,3,4,5,99,2^31-1} x a grammar of counterparty strings (signs, leading zeros, 2^32-1, 2^32, 2^63, >int64, Unicode digits, spaces/NUL, channel-N forms, separators inside, lengths 0,1,32,33, random) through NewCrossChainID/ID/ParseCrossChainID: accepted => round trip, injective text, canonical decimal 32-bit domain for CCTP/Hyperlane, length <= 32; every parsable text re-renders to itself; CounterpartyID() of the attributes = canonical decimal. Behavioural: for every calibrated CCTP/Hyperlane domain, 12 spellings of the domain are sent through the real PauseCrossChains message; every accepted spelling must make the probe transfer to that domain be refused, and only one spelling may be accepted. distinct = (protocol, string class) and behavioural (protocol, spelling class, accepted?, outcome)",
 		Assumptions: commonAssumptions,
